@@ -581,13 +581,26 @@ fn flaky_format(w: &mut dyn std::io::Write, _now: &mut flexi_logger::DeferredNow
     write!(w, "[{}] {m}", record.level())
 }
 
+/// A message whose Display implementation writes part of its text and then panics.
+struct Bomb;
+impl std::fmt::Display for Bomb {
+    fn fmt(&self, f: &mut std::fmt::Formatter<'_>) -> std::fmt::Result {
+        write!(f, "partial:")?;
+        std::panic::resume_unwind(Box::new("scenario: Display panics"));
+    }
+}
+/// Writes as it goes (what the provided format functions do).
+fn streaming_format(w: &mut dyn std::io::Write, _now: &mut flexi_logger::DeferredNow, record: &Record) -> std::io::Result<()> {
+    write!(w, "[{}] {}", record.level(), record.args())
+}
+
 /// Whatever a failing format function leaves behind, the records around it are framed as usual:
 /// each occupies exactly its format output plus one line ending.
-fn failing_format(mode: ModeK, crlf: bool, to_stdout: bool) -> Result<(u64, u64), Fail> {
+fn failing_format(mode: ModeK, crlf: bool, to_stdout: bool, panicking: bool) -> Result<(u64, u64), Fail> {
     let env = Env::new("c20f");
     env.enter();
     let ending = if crlf { "\r\n" } else { "\n" };
-    let cause = format!("{}/{}/{}", super::c08::mode_class(mode), if crlf { "crlf" } else { "lf" }, if to_stdout { "stdout" } else { "file" });
+    let cause = format!("{}/{}/{}{}", super::c08::mode_class(mode), if crlf { "crlf" } else { "lf" }, if to_stdout { "stdout" } else { "file" }, if panicking { "/panicking-display" } else { "" });
     let sc = crate::scratch::Scratch::new("c20fc");
     let mut cap = None;
     let lb = if to_stdout {
@@ -596,7 +609,7 @@ fn failing_format(mode: ModeK, crlf: bool, to_stdout: bool) -> Result<(u64, u64)
     } else {
         flexi_logger::Logger::with(flexi_logger::LogSpecification::trace()).log_to_file(flexi_logger::FileSpec::default().directory(&env.dir).basename("app").suppress_timestamp())
     };
-    let lb = lb.format(flaky_format).write_mode(mode.write_mode()).error_channel(flexi_logger::ErrorChannel::File(env.err.clone()));
+    let lb = lb.format(if panicking { streaming_format } else { flaky_format }).write_mode(mode.write_mode()).error_channel(flexi_logger::ErrorChannel::File(env.err.clone()));
     let lb = if crlf { lb.use_windows_line_ending() } else { lb };
     let built = lb.build();
     let (logger, handle) = match built {
@@ -614,7 +627,18 @@ fn failing_format(mode: ModeK, crlf: bool, to_stdout: bool) -> Result<(u64, u64)
     };
     let msgs = ["one", "FAIL two", "three", "FAIL four", "FAIL five", "six"];
     for m in msgs {
-        crate::lg::log_info(&*logger, m);
+        if panicking && m.starts_with("FAIL") {
+            // the message's Display implementation panics after part of its output; the caller
+            // catches the panic (as thread pools do) and the thread goes on logging
+            let r = std::panic::catch_unwind(std::panic::AssertUnwindSafe(|| {
+                logger.log(&Record::builder().args(format_args!("{}", Bomb)).level(Level::Info).target("app").module_path(Some("app")).build());
+            }));
+            if r.is_ok() {
+                // (the logger may also swallow the panic - fine, too)
+            }
+        } else {
+            crate::lg::log_info(&*logger, m);
+        }
     }
     handle.shutdown();
     drop(logger);
@@ -686,10 +710,12 @@ fn run_unit(tier: &str, unit: usize, out: &mut Out) {
         // the buffer of the refused record is one the pool would take back)
         for m in MODES.into_iter().chain([ModeK::Async(1, 64, 0), ModeK::Async(2, 4096, 0)]) {
             for crlf in [false, true] {
-                v.push(run_isolated(Duration::from_secs(60), move || failing_format(m, crlf, false)));
+                v.push(run_isolated(Duration::from_secs(60), move || failing_format(m, crlf, false, false)));
+                v.push(run_isolated(Duration::from_secs(60), move || failing_format(m, crlf, false, true)));
                 // (the line ending is a setting of the file writer; stdout always gets LF)
                 if !m.is_async() && !crlf {
-                    v.push(run_isolated(Duration::from_secs(60), move || failing_format(m, crlf, true)));
+                    v.push(run_isolated(Duration::from_secs(60), move || failing_format(m, crlf, true, false)));
+                    v.push(run_isolated(Duration::from_secs(60), move || failing_format(m, crlf, true, true)));
                 }
             }
         }
